@@ -15,7 +15,7 @@ RULE = ("Hypothesis-generated joint degree distributions over 1..4 topologies (1
         "Non-trivial = >= 2 topologies and >= 3 keys; distinct = canonical JSON")
 ASSUMPTIONS = ["inversion is only required when some joint degree is positive in every topology (the statement's precondition)",
                "cross-module identity restricted to clique and cycle motifs (vertex topology-degree proportional to its annotation)"]
-BUDGET = {"quick": (16, 300), "thorough": (16, 5000)}
+BUDGET = {"quick": (16, 300), "thorough": (16, 15000)}
 NAMES = ["2-clique", "3-clique", "2-clique-blue", "tri", "sq#1", "", "τ", "edge", "4-cycle"]
 
 
